@@ -72,3 +72,29 @@ Theorem reference_flux_cancels eid len um up lm lp :
 Proof.
   intros Hu Hl Lu Ll. unfold reference_part. rewrite <- Hu, <- Hl. split; field; assumption.
 Qed.
+
+(* ---- which cell count each pole uses --------------------------------------------------------------------------
+   In the border-border branch (both fans open) the coefficients around pole 1 are the border coefficients with nc1 and
+   sign -1, those around pole 2 the border coefficients with nc2 and sign +1: each side uses the cell count of ITS OWN
+   pole.  (The translator pins the argument lists of the four dispatch branches; BVgen flag below.) *)
+Theorem border_border_uses_own_count eid len fan1 fan2 g1 s1 g2 s2 nc1 nc2 ref1 ref2 um up lm lp :
+  bc_border_test_uses_sorted_edges = true ->
+  bc_coeffs eid len fan1 fan2 (g1 :: s1) (g2 :: s2) nc1 nc2 ref1 ref2 um up lm lp =
+  border_coeffs eid len nc1 fan1 (g1 :: s1) ref1 (- (1)) ++ border_coeffs eid len nc2 fan2 (g2 :: s2) ref2 1 ++
+  reference_part eid len um up lm lp.
+Proof. intros H. unfold bc_coeffs, vertex_part. rewrite H. reflexivity. Qed.
+
+(* the documented fluxes of an open fan with nc cells: (nc-1)/nc before, (2-nc)/(2 nc) on, 1/nc after the reference
+   edge (up to the orientation sign of the local edge) *)
+Theorem border_flux_values eid len nc sorted ref sign s :
+  (0 < nc)%nat -> ~ len (eid s) == 0 ->
+  let sg := match snd s with 0%nat => - sign | _ => sign end in
+  let count := pos_of (eid s) sorted in
+  border_value eid len nc sorted ref sign s * len (eid s) ==
+  if Nat.ltb count ref then sg * (1 - qn nc) / qn nc
+  else if Nat.eqb count ref then sg * (2 - qn nc) / (2 * qn nc) else sg / qn nc.
+Proof.
+  intros Hnc HL. pose proof (qn_nc_nonzero nc Hnc) as Hq. unfold border_value. cbv zeta.
+  destruct (Nat.ltb _ ref); [field; split; assumption|].
+  destruct (Nat.eqb _ ref); field; split; assumption.
+Qed.
